@@ -167,6 +167,21 @@ pub struct KeyEnc<'a> {
     pub payload: Option<[u8; 32]>,
 }
 
+/// Which halves of the ephemeral key pair are handed to key_encrypt (the API takes two Options).
+#[derive(Clone, Copy, PartialEq, Debug)]
+pub enum EHalves {
+    /// both (injected ephemeral) or none, depending on e_priv
+    Consistent,
+    /// only the private half: the documented behaviour is that fresh keys are generated
+    PrivateOnly,
+    /// only the public half
+    PublicOnly,
+}
+
+thread_local! {
+    pub static E_HALVES: std::cell::Cell<EHalves> = const { std::cell::Cell::new(EHalves::Consistent) };
+}
+
 pub fn key_encrypt_run(pt: &[u8], io: &Io, k: &KeyEnc) -> Run {
     let (mut r, mut w, log) = mk(pt, io);
     let sink = w.sink();
@@ -180,7 +195,12 @@ pub fn key_encrypt_run(pt: &[u8], io: &Io, k: &KeyEnc) -> Run {
             None => None,
         };
         let pl = k.payload.map(|p| PayloadKey::new(&p));
-        key_encrypt(&mut r, &mut w, &s, &spub, &rpub, e.as_ref(), epub.as_ref(), pl.as_ref(), AsymFileFormat::V1)
+        let (ea, pa) = match E_HALVES.with(|h| h.get()) {
+            EHalves::Consistent => (e.as_ref(), epub.as_ref()),
+            EHalves::PrivateOnly => (e.as_ref(), None),
+            EHalves::PublicOnly => (None, epub.as_ref()),
+        };
+        key_encrypt(&mut r, &mut w, &s, &spub, &rpub, ea, pa, pl.as_ref(), AsymFileFormat::V1)
     });
     let out = sink.borrow().clone();
     Run { outcome: enc_outcome(res), out, log }
